@@ -34,7 +34,7 @@ pub fn run(pid: &'static str, thorough: bool) -> i32 {
                     eprintln!("explorers disagree: stateright 1 thread {}/{}, N threads {}/{}, layered {}/{}", st1.states, st1.transitions, stn.states, stn.transitions, stl.states, stl.transitions);
                     return 2;
                 }
-                rep.set(if builder { "builder" } else { "interner" }, json!({"depth": depth, "states": st.states, "transitions": st.transitions, "max_depth": st.max_depth, "alphabet": if builder { tables::BUILDER_VALUES } else { tables::INTERNER_VALUES.len() }, "cross_check_depth": small, "cross_check_states": st1.states}));
+                rep.set(if builder { "builder" } else { "interner" }, json!({"depth": depth, "states": st.states, "transitions": st.transitions, "max_depth": st.max_depth, "alphabet": if builder { tables::BUILDER_OPS } else { tables::INTERNER_VALUES.len() }, "cross_check_depth": small, "cross_check_states": st1.states}));
                 states += st.states;
                 transitions += st.transitions;
                 rep.extend(st.violations);
@@ -64,6 +64,11 @@ pub fn run(pid: &'static str, thorough: bool) -> i32 {
                 rep.sample(s);
             }
             rep.extend(st.violations);
+            let (dregs, dcalls, dv) = retain::explore_deep(thorough, false);
+            rep.set("large_registries", json!({"registries": dregs, "retain_calls": dcalls, "shapes": ["forward chain", "backward chain", "star", "binary tree"], "sizes": if thorough { vec![70, 130, 260, 1030] } else { vec![70, 130] }}));
+            states += dregs;
+            transitions += dcalls;
+            rep.extend(dv);
             rep.set("evaluations", json!(st.calls));
             rep.set("distinct_nontrivial", json!(st.nontrivial));
             rep.set("exhaustive", json!(true));
@@ -129,7 +134,7 @@ pub fn run(pid: &'static str, thorough: bool) -> i32 {
                 let t = tables::explore_layers(true, if thorough { 7 } else { 6 });
                 // (eval_builder checks finish(): ids 0..len at their indices); closure of finish():
                 let mut closed_checked = 0u64;
-                let vals = tables::BUILDER_VALUES as u8;
+                let vals = tables::BUILDER_OPS as u8;
                 let depth = if thorough { 6 } else { 5 };
                 let mut hs: Vec<Vec<u8>> = vec![vec![]];
                 let mut frontier: Vec<Vec<u8>> = vec![vec![]];
@@ -165,6 +170,11 @@ pub fn run(pid: &'static str, thorough: bool) -> i32 {
                 states += r.registries;
                 transitions += r.calls;
                 rep.extend(r.violations);
+                let (dregs, dcalls, dv) = retain::explore_deep(thorough, true);
+                rep.set("retain_large_registries", json!({"registries": dregs, "retain_calls": dcalls}));
+                states += dregs;
+                transitions += dcalls;
+                rep.extend(dv);
             }
             rep.set("rule", json!("(a) stateright BFS over registration histories of the static universe U1 (register_type for every member incl. every alias family, register_types pairs, into_portable / map_into_portable of definitions, fields, variants, parameters) to the depth bound, state key = Debug of the real Registry; (a') size-related behaviour: every member of U1 registered in one history, for every rotation of the member list and its reversal, and every member of U1+U3 (built-in constructors nested to depth 2: more than a thousand entries) for 8 (thorough 16) evenly spaced rotations and their reversals, the property's oracle evaluated after every registration; (b) every type graph of the U2 plans x every root sequence with repetition (x every permutation of every root set for C11); each transition runs the real Registry and the property's oracle"));
         }
@@ -189,6 +199,7 @@ pub fn replay(pid: &str, body: &Value) -> i32 {
         Some("u1-long") => hist::replay_long(pid, case),
         Some("u2-graph") => graphs::replay_case(pid, case),
         Some("retain") => retain::replay_case(case, pid == "C01"),
+        Some("retain-deep") => retain::replay_deep(case, pid == "C01"),
         Some("builder") | Some("interner") => {
             if pid == "C01" {
                 let h: Vec<u8> = case["ops"].as_array().unwrap().iter().map(|x| x.as_u64().unwrap() as u8).collect();
